@@ -87,6 +87,8 @@ class Check:
             consumers.append({'kind': kind, 'params': C.gen_params(rnd, kind)})
             if rnd.random() < 0.2 and C.KINDS[kind].streaming:
                 consumers[-1]['stride'] = rnd.choice([2, 3])        # a subscriber running at a lower rate
+            if rnd.random() < 0.25 and C.KINDS[kind].streaming:
+                consumers[-1]['reuse_buffers'] = True                # reads every sample into the same three buffers
         # sometimes a second instance of the same class sharing its parameter arrays
         if rnd.random() < 0.4:
             src = rnd.choice(consumers)
@@ -292,12 +294,22 @@ class Check:
         q = None if q0 is None else np.array(q0, dtype=float)
         if seed is not None:
             np.random.seed(seed)
+        bufs = None
         for k in range(t.first, t.pos):
             if rng_states is not None and k in rng_states:
                 np.random.set_state(rng_states[k])
             g = gyr[k] if 'g' in t.kind.sensors else None
             a = acc[k] if 'a' in t.kind.sensors else None
             m = mag[k] if 'm' in t.kind.sensors else None
+            if t.spec.get('reuse_buffers'):
+                if bufs is None:
+                    bufs = [np.zeros(3), np.zeros(3), np.zeros(3)]
+                vals = []
+                for buf, src in zip(bufs, (g, a, m)):
+                    if src is not None:
+                        buf[:] = src
+                    vals.append(buf if src is not None else None)
+                g, a, m = vals
             try:
                 r = t.kind.step(inst, p, q, g, a, m, C.call_dt(p, t.dt))
                 out[k] = K.out_to_array(r)
@@ -344,7 +356,7 @@ class Check:
         return {
             'lists': [('consumers',), ('world', 'faults'), ('world', 'segments')],
             'ints': [(('world', 'segments', '*', 'len'), 1), (('world', 'faults', '*', 'len'), 1), (('lag_bound',), 1)],
-            'resets': [(('starve',), None), (('repeat_batch',), False), (('consumers', '*', 'stride'), 1),
+            'resets': [(('starve',), None), (('repeat_batch',), False), (('consumers', '*', 'stride'), 1), (('consumers', '*', 'reuse_buffers'), False),
                        (('world', 'noise'), {'acc': 0.0, 'mag': 0.0, 'gyr': 0.0}),
                        (('world', 'g'), 9.81), (('world', 'mscale'), 50.0), (('world', 'dt'), 0.01),
                        (('consumers', '*', 'share'), SHRINK_DELETE),
